@@ -351,7 +351,41 @@ def run_case(case: dict) -> Result:
                 res.bad('unique:' + bad[0] + ':deepcopy', bad[1])
             elif omap(cp) != omap(root):
                 res.bad('copy-attribution-differs', f'a deep copy attributes comments differently: {_mdiff(omap(root), omap(cp))} in {text!r}')
+    # (8) last, because it edits the text: a standalone comment appended to a meta list, released, claimed again through the same list
+    if not res.violations:
+        bad8 = _append_release_claim(root, classes)
+        if bad8:
+            res.bad(*bad8)
     return _done(res, classes)
+
+
+def _append_release_claim(root: Any, classes: set) -> Optional[tuple]:
+    for cn, ms in sorted(OPS.index_models(root).items()):
+        for m in ms:
+            if not hasattr(type(m), 'raw_meta_with_comments'):
+                continue
+            w = m.raw_meta_with_comments
+            ind = (m.indent if cn == 'Posting' else '') + '    '
+            c = BlockComment.from_value('appended', indent=ind)
+            try:
+                w.append(c)
+            except Exception:  # noqa: BLE001 - edits are other properties' subject
+                return None
+            classes.add('stage:append-release-claim')
+            text = O.print_text(root)
+            before = omap(root)
+            try:
+                w.unclaim_interleaving_comments([c])
+                w.claim_interleaving_comments([c])
+            except ValueError as e:
+                ends_model = not any(x is c for x in w) and w.repeated.last_token is m.last_token
+                shape = 'list-ends-model' if ends_model else 'other'
+                return (f'unclaim-claim:appended-comment:{shape}:{"Posting" if cn == "Posting" else "entry"}',
+                        f'{cn}.raw_meta_with_comments.append(comment); unclaim_interleaving_comments([comment]); claim_interleaving_comments([comment]) raised {e!r} in {text!r}')
+            if omap(root) != before:
+                return (f'unclaim-claim:appended-comment:not-restored:{cn}', f'unclaim then claim of an appended comment does not restore the attribution in {text!r}')
+            return None
+    return None
 
 
 def _assign_copied_comment(root: Any, text: str, classes: set) -> Optional[tuple]:
